@@ -3,6 +3,7 @@
   Property theorems only.
 -/
 import Pongo.Lemmas.Eval
+import Pongo.Model.ParseDoc
 import Pongo.Gen.FilterFacts
 
 namespace Pongo.C10
@@ -108,6 +109,39 @@ theorem super_renders_next_less_derived (fuel fid : Nat) (name : Bytes) (lvl : N
 /-- the cap on blocks rendering inside each other (the guard against blocks that contain each
     other through inheritance) leaves room for a thousand levels of honest nesting (regenerated) -/
 theorem gen_block_depth_cap : 1000 ≤ Gen.maxBlockDepth := by decide
+
+/-! ### the compile errors -/
+
+/-- **A second `extends`, or one below the root level, is a compile error**: whatever else the tag
+    says and wherever its file would come from, the parser refuses it before looking at anything. -/
+theorem second_or_nested_extends_rejected (fuel : Nat) (start close : Tok) (args : PS) (ds : DS)
+    (hs : start.val = b!"extends") (h : ds.ts.level > 1 ∨ ds.ts.parent.isSome = true) :
+    ∃ e, tagParser T cfg (fuel + 1) start close args ds = .error e := by
+  unfold tagParser
+  rw [if_neg (by rw [hs]; decide), if_neg (by rw [hs]; decide), if_neg (by rw [hs]; decide), if_neg (by rw [hs]; decide),
+    if_pos (by rw [hs]; decide)]
+  by_cases hl : ds.ts.level > 1
+  · rw [if_pos hl]; exact ⟨_, rfl⟩
+  · rw [if_neg hl]
+    rcases h with h | h
+    · exact absurd h hl
+    · rw [if_pos h]; exact ⟨_, rfl⟩
+
+/-- **A duplicate block name is a compile error**: when the body of a `block` tag has been parsed
+    and the template already has a block of that name — defined before it, or inside its own body —
+    the tag is refused. -/
+theorem duplicate_block_rejected (fuel : Nat) (start close nameTok : Tok) (args args' endargs : PS) (ds ds' : DS)
+    (body : List Node) (et : Bytes) (last : Option Tok)
+    (hs : start.val = b!"block") (hc : args.count ≠ 0) (hm : args.matchType .ident = some (nameTok, args'))
+    (hr : args'.remaining = 0)
+    (hw : wrapUntil T cfg fuel [b!"endblock"] [] (some close) ds = .ok (body, et, endargs, last, ds'))
+    (he : endargs.remaining = 0) (hdup : (ds'.ts.blocks.lookup nameTok.val).isSome = true) :
+    tagParser T cfg (fuel + 1) start close args ds = .error (args'.err "Block already defined") := by
+  unfold tagParser
+  rw [if_neg (by rw [hs]; decide), if_pos (by rw [hs]; decide), if_neg hc]
+  simp only [hm]
+  rw [if_neg (by simp [hr])]
+  simp only [hw, bind, Except.bind, he, Nat.lt_irrefl, if_false, gt_iff_lt, pure, Except.pure, hdup, if_true]
 
 /-! ### non-vacuity -/
 example : (blockWrappers #[
